@@ -17,7 +17,9 @@ suite_fail=$(echo "$out" | grep -E "^test .* FAILED" | wc -l)
 echo "$out" | grep -qE "^error" && suite_fail=999
 passed=$(echo "$out" | grep -E "^test result" | awk '{s+=$4} END{print s}')
 cp "$SRC/demo.rs" tests/demo.rs
-demo_with=$(cargo test --offline --workspace --test demo 2>&1 | grep -E "^test result" | head -1)
+demo_with=$(timeout 900 cargo test --offline --workspace --test demo 2>&1; echo "EXIT=$?")
+# a demo that aborts the test binary (stack overflow, SIGABRT) or times out also counts as failing
+if echo "$demo_with" | grep -qE "^test result: FAILED|EXIT=(1[0-9][0-9]|[1-9][0-9]?)$"; then demo_with="FAILED ($(echo "$demo_with" | grep -E "^test result|EXIT=" | tr '\n' ' '))"; else demo_with="$(echo "$demo_with" | grep -E "^test result" | head -1)"; fi
 git checkout -q -- .
 demo_without=$(timeout 600 cargo test --offline --workspace --test demo 2>&1 | grep -E "^test result" | head -1)
 rm -f tests/demo.rs
